@@ -1,5 +1,4 @@
-import BoxoModel.C06.Model
-import BoxoModel.Gen.BuzTable
+import BoxoModel.C06.Go
 /-! Line-protocol driver for C06 (see /verif/docs/HOWTO.md).
 Ops (all operands are single tokens):
   parse <spec-hex>                               → err | size N | rabin MIN ⌊log2 AVG⌋ MAX | buzhash
@@ -81,14 +80,6 @@ def rle (xs : List Nat) : String :=
       else go r x 1 (s!"{cur}x{cnt}" :: acc)
   ",".intercalate (go xs 0 0 [])
 
-def limits : Limits :=
-  { chunkSizeLimit := Gen.Buz.chunkSizeLimit, defaultBlockSize := Gen.Buz.defaultBlockSize,
-    rabinMinFloor := (Gen.Buz.rabinLowerGuards.getLast?.map (·.2)).getD 0 }
-
-def goBuz : BuzP :=
-  { min := Gen.Buz.buzMin, max := Gen.Buz.buzMax, mask := Gen.Buz.buzMask,
-    tbl := fun b => Gen.Buz.bytehash[b.toNat]! }
-
 def specString (hex : String) : String := String.ofList ((unhex hex).map fun b => Char.ofNat b.toNat)
 
 def showSpec : Option Spec → String
@@ -101,9 +92,9 @@ def step (line : String) : String :=
   match (line.trimAscii.toString.splitOn " ").filter (· ≠ "") with
   | ["case", n] => s!"case {n}"
   | ["end"] => "end"
-  | ["parse", sp] => showSpec (parseSpec limits (specString sp))
+  | ["parse", sp] => showSpec (parseSpec goLimits (specString sp))
   | ["split", sp, ewd, fr, inp, cands] =>
-    match parseSpec limits (specString sp) with
+    match parseSpec goLimits (specString sp) with
     | none => "err"
     | some spec =>
       let data := inputOf inp
@@ -113,7 +104,7 @@ def step (line : String) : String :=
         for p in nats cands do
           if p < a.size then a := a.set! p 1
         return a
-      let chunks := chunksOf goBuz (512 * 1024) (fun start => start) (fun p _ => p + 1)
+      let chunks := chunksOf goBuzP (512 * 1024) (fun start => start) (fun p _ => p + 1)
         (fun p => bitmap.get! p == 1) spec rd
       let lens := chunks.map List.length
       s!"n={lens.length} total={lens.foldl (· + ·) 0} lens={rle lens}"
